@@ -1,3 +1,3 @@
 SPECIFICATION SpecCases
-INVARIANTS EmitCase CaseLaws PairOrderTransitive
+INVARIANTS EmitCase CaseLaws
 CHECK_DEADLOCK FALSE
